@@ -164,8 +164,8 @@ def r8_5(ctx):
     ok = len(terms) >= 2 and all((isinstance(e.right, ast.Constant) and e.right.value == 4 and not isinstance(e.left, ast.Constant)) or (isinstance(e.left, ast.Constant) and e.left.value == 4 and not isinstance(e.right, ast.Constant)) for e in terms) and len({norm(e) for e in terms}) == 1
     ctx.check(ok, m.fq, norm(terms[0]) if terms else "indent", m.where, "measure adds 4 cells per level to both the minimum and the maximum", "Tree.__rich_measure__ does not indent by 4 cells per level (the width of a guide) in both the minimum and the maximum")
     src = norm(f.node)
-    ctx.check("push(iter(loop_last(node.children)))" in src and "push(iter(loop_last([self])))" in src, f.fq, "depth-first in child order", f.where, "children are walked in order, depth first", "Tree no longer walks children in order, depth first")
-    ctx.check("sum((level.cell_length for level in prefix))" in src, f.fq, "label width = max_width - prefix cells", f.where, "label budget subtracts the guide prefix", "Tree label width does not subtract the cells of the guide prefix")
+    ctx.shape("push(iter(loop_last(node.children)))" in src and "push(iter(loop_last([self])))" in src, f.fq, "depth-first in child order", f.where, "children are walked in order, depth first", "Tree no longer walks children in order, depth first")
+    ctx.shape("sum((level.cell_length for level in prefix))" in src, f.fq, "label width = max_width - prefix cells", f.where, "label budget subtracts the guide prefix", "Tree label width does not subtract the cells of the guide prefix")
 
 
 def r8_6(ctx):
@@ -253,7 +253,7 @@ def r8_8(ctx):
                       f"Align emits a line of `{show(w)}` cells on path [{conds}]: not exactly the available width `{pe.W}` - the wrapper is not a rectangle of the full width")
     ctx.floor(n, 4, "emitted line kinds in Align")
     src = norm(f.node)
-    ctx.check("excess_space = options.max_width - width" in src and "lines = Segment.set_shape(lines, width, height)" in src, f.fq, "excess_space = options.max_width - width", f.where,
+    ctx.shape("excess_space = options.max_width - width" in src and "lines = Segment.set_shape(lines, width, height)" in src, f.fq, "excess_space = options.max_width - width", f.where,
               "excess is measured against the shaped child width", "Align's excess space is not options.max_width minus the width its lines are shaped to")
 
 
